@@ -29,6 +29,12 @@ type C11Case struct {
 	// collectors' own cycle logic (tick, time limit, resume, the every-n-th
 	// scan for unreferenced files) has to release the files.
 	Background int `json:"background,omitempty"`
+	// KeepOldest: bit 0 - the kill phase spares the keys of the oldest
+	// non-current primary file; bit 1 - it does not rewrite the buckets that
+	// refer into the oldest non-current index file. The files behind a spared
+	// one can then not be unlinked (they are not the oldest), they have to be
+	// truncated to zero length.
+	KeepOldest int `json:"keep_oldest,omitempty"`
 }
 
 type c11Stats struct {
@@ -41,7 +47,7 @@ type c11Stats struct {
 	Background      string // "", "released", "inconclusive"
 }
 
-const c11Rule = "rapid-generated histories on the multihash primary (small files, one fixed low-use threshold 1..100 per case, every GC cycle preceded by a flush as the statement requires) followed by a generated kill phase that removes or overwrites every key living in a non-current primary file and rewrites every bucket that refers into a non-current index file, flush, then [primary cycle, index cycle, flush] repeated (the index cycles with the scan for unreferenced files every other time, never, or always - drawn per case); " +
+const c11Rule = "rapid-generated histories on the multihash primary (small files, one fixed low-use threshold 1..100 per case, every GC cycle preceded by a flush as the statement requires) followed by a generated kill phase that removes or overwrites every key living in a non-current primary file and rewrites every bucket that refers into a non-current index file (in a third of the cases the oldest such primary and/or index file is spared, so that the files behind it cannot be unlinked and have to be truncated), flush, then [primary cycle, index cycle, flush] repeated (the index cycles with the scan for unreferenced files every other time, never, or always - drawn per case); " +
 	"oracle = validity predicates: the directory becomes byte-identical across two consecutive rounds within 10+3*(records+files) rounds; at that fixed point every targeted primary file and every unreferenced targeted index file has length 0 or is gone, a dead non-empty file that is the oldest one when the first cycle visits it is unlinked and the first-file number advances past it, no non-current primary file with live records is low-use by the case's threshold; StorageSize right after a cycle <= StorageSize right before it + 2, and growth at the following flush <= outstanding work reported before that flush + 2; contents still equal the reference map; in a quarter of the cases the closure is left to the store's own periodic collectors instead (0.2 ms interval, cycle time limit none / 50 us / 500 us; verdict after >= 60 cycles of each collector, counted at their named points); after a close/reopen and three more cycles an empty non-current file is never the header's first file; " +
 	"non-trivial = the kill phase emptied >=2 primary files one of which was not the oldest; distinct = distinct canonical JSON of the case"
 
@@ -60,6 +66,7 @@ func genC11(t *rapid.T) C11Case {
 	c.KillMode = rapid.SliceOfN(rapid.IntRange(0, 1), len(c.Seq.Keys), len(c.Seq.Keys)).Draw(t, "killmode")
 	c.IGCMode = weighted(t, "igcmode", []int{2, 2, 1})
 	c.Background = weighted(t, "background", []int{9, 1, 1, 1})
+	c.KeepOldest = weighted(t, "keepoldest", []int{4, 1, 2, 1})
 	return c
 }
 
@@ -221,6 +228,15 @@ func c11Closure(r *seqRunner, step int, c C11Case, pc *pointCounter, csp *c11Sta
 				targetsP[n] = true
 			}
 		}
+		if c.KeepOldest&1 != 0 && len(targetsP) >= 2 {
+			spare := curPrim
+			for n := range targetsP {
+				if n < spare {
+					spare = n
+				}
+			}
+			delete(targetsP, spare)
+		}
 		recordsInTargets := 0
 		for k, ks := range r.c.Keys {
 			if _, present := r.model[string(ks.Digest)]; !present {
@@ -263,6 +279,15 @@ func c11Closure(r *seqRunner, step int, c C11Case, pc *pointCounter, csp *c11Sta
 			if n < curIdx && sz > 0 {
 				targetsI[n] = true
 			}
+		}
+		if c.KeepOldest&2 != 0 && len(targetsI) >= 2 {
+			spare := curIdx
+			for n := range targetsI {
+				if n < spare {
+					spare = n
+				}
+			}
+			delete(targetsI, spare)
 		}
 		byBucket := map[uint32][]int{}
 		for k, ks := range r.c.Keys {
